@@ -10,11 +10,13 @@ from framework import Result
 from props import _util
 
 ID = 'C13'
-LEAN_TARGETS = ['TexSoupProofs.Properties.C13Lines', 'TexSoupProofs.Properties.C13Positions', 'TexSoupProofs.Properties.C19',
+LEAN_TARGETS = ['TexSoupProofs.Properties.C13Lines', 'TexSoupProofs.Properties.C13Lines2', 'TexSoupProofs.Properties.C13Positions', 'TexSoupProofs.Properties.C19',
                 'TexSoupProofs.Reader.LeafSlices', 'TexSoupProofs.Properties.C13Regex']
 THEOREMS = ['TexSoup.C13Lines.' + n for n in (
     'lineStart_no_lf', 'lineStart_after_lf', 'charPosToLine_correct_le', 'charPosToLine_correct',
     'charPosToLine_correct_at_end', 'charPosToLine_beyond_end',
+    'lineStart_le', 'lineStart_append_no_lf', 'lineCol_recover', 'lineStart_eq_of_same_line', 'lineCol_injective',
+    'charPosToLine_injective', 'charPosToLine_recover', 'lineCol_no_lf_between', 'lineCol_lf_before_start',
     'Legacy.charPosToLine_wrong_at_lf', 'Legacy.charPosToLine_wrong_at_every_lf')] + [
     'TexSoup.C13.node_positions', 'TexSoup.C13.node_positions_nonempty', 'TexSoup.C13.node_first_char',
     'TexSoup.C13.intended_statement_false', 'TexSoup.token_offsets', 'TexSoup.token_offsets_bounded', 'TexSoup.C13.match_offset',
